@@ -17,7 +17,8 @@
 //	tip     height of the ledger tip (blocks 0..tip exist); tdpos: terms = curTerm stored in
 //	        blocks 0..tip, e.g. 0,1,1,2
 //	h       height of the candidate block; its predecessor is ledger block h-1
-//	ownBits / preBits   targetBits (rollback marker) in the storage of the candidate / of block h-1
+//	ownBits / preBits   targetBits (rollback marker) in the storage of the candidate / of block h-1; a marker m is resolved
+//	        through the snapshot of block m-3: m > tip+3 cannot be resolved (no validator set: nothing is accepted)
 //	pos     position in the slot schedule selected by the candidate's timestamp; the proposer is
 //	        the validator at that position of the set the code should compute for the block
 //	        (tdpos: term = the term selected by the timestamp)
@@ -679,10 +680,17 @@ func exec(line string, out *xvlib.Out) (res string) {
 	colAcct := outsider
 	if ownOK && c.pos < int64(len(own)) {
 		colAcct = own[c.pos]
+	} else if !ownOK && c.pos < int64(len(c.init)) {
+		// no set can be computed for the block (its rollback marker points beyond the ledger): the proposer is the member the
+		// slot selects in the INITIAL set, the block a lookup that falls back to some default set would let through
+		colAcct = c.init[c.pos]
 	}
 	var ts int64
 	if c.kind == "xp" {
 		n := int64(len(own))
+		if !ownOK {
+			n = int64(len(c.init))
+		}
 		if n == 0 {
 			n = 1
 		}
@@ -758,7 +766,12 @@ func oracle(c *cand, line, res string, own []int, ownOK bool, col int, out *xvli
 	S, ok := c.viewSet()
 	if !ok {
 		if accepted {
-			viol("accepted-without-validator-set", "CheckMinerMatch accepted a certificate although the validator set of the certified view cannot be computed")
+			key := "accepted-without-validator-set"
+			if name := c.quorumOfOtherSet(own, nil, col); name != "" {
+				key += ":" + name
+			}
+			viol(key, fmt.Sprintf("%s CheckMinerMatch accepted block %d although the validator set in force for the certified view %d cannot be computed (the rollback marker %d of block %d points beyond the ledger tip %d): the certificate was checked against some other set",
+				c.kind, c.h, c.cert, c.preB, c.h-1, c.tip))
 		}
 		return
 	}
@@ -797,22 +810,7 @@ func oracle(c *cand, line, res string, own []int, ownOK bool, col int, out *xvli
 			}
 		}
 		// does the certificate hold a quorum of ANOTHER set of this chain (the block's own view, the tip state, the initial set ...)?
-		otherSet := ""
-		for _, alt := range c.altSets(own) {
-			if sameSet(alt.set, S) {
-				continue
-			}
-			cnt := map[int]bool{}
-			for _, e := range c.es {
-				if e.valid() && contains(alt.set, e.addr) && e.addr != col {
-					cnt[e.addr] = true
-				}
-			}
-			if len(cnt) >= quorum(len(alt.set)) && (len(cnt) > 0 || len(alt.set) == 1) {
-				otherSet = alt.name
-				break
-			}
-		}
+		otherSet := c.quorumOfOtherSet(own, S, col)
 		switch {
 		case colValid && len(others)+1 >= q:
 			key = "collector-counted"
@@ -832,6 +830,25 @@ func oracle(c *cand, line, res string, own []int, ownOK bool, col int, out *xvli
 		viol("genuine-quorum-rejected", fmt.Sprintf("%s CheckMinerMatch rejected block %d of the entitled proposer although its certificate carries %d >= %d distinct valid members besides the collector of the set in force for view %d (%s)",
 			c.kind, c.h, len(others), q, c.cert, setStr(S)))
 	}
+}
+
+// quorumOfOtherSet names the first set of this chain, other than S, of which the certificate holds a quorum besides the collector
+func (c *cand) quorumOfOtherSet(own, S []int, col int) string {
+	for _, alt := range c.altSets(own) {
+		if alt.set == nil || (S != nil && sameSet(alt.set, S)) {
+			continue
+		}
+		cnt := map[int]bool{}
+		for _, e := range c.es {
+			if e.valid() && contains(alt.set, e.addr) && e.addr != col {
+				cnt[e.addr] = true
+			}
+		}
+		if len(cnt) >= quorum(len(alt.set)) && (len(cnt) > 0 || len(alt.set) == 1) {
+			return alt.name
+		}
+	}
+	return ""
 }
 
 type namedSet struct {
@@ -1034,6 +1051,103 @@ func variants(n int) map[string][]int {
 	return v
 }
 
+// noSetCertificates presents the candidate described by prefix, whose certified block carries a rollback marker the
+// ledger cannot resolve (no validator set is in force: nothing may be accepted), with a quorum / all members of every
+// set a lookup could fall back to: the initial set, the set the node holds in memory (tip state), the set the view has
+// without the marker, the block's own set, every recorded set.
+func (g *gen) noSetCertificates(prefix string, view int64, col int, alts []namedSet) {
+	var done [][]int
+	for _, alt := range alts {
+		if alt.set == nil {
+			continue
+		}
+		dup := false
+		for _, d := range done {
+			dup = dup || sameSet(d, alt.set)
+		}
+		if dup {
+			continue
+		}
+		done = append(done, alt.set)
+		sb := g.shuffled(but(alt.set, col))
+		g.run("f:no-set/"+alt.name+"-quorum", strings.TrimSpace(fmt.Sprintf("%s %d %s", prefix, view, strings.Join(toks(take(sb, quorum(len(alt.set))), "v"), " "))))
+		g.run("f:no-set/"+alt.name+"-all", strings.TrimSpace(fmt.Sprintf("%s %d %s", prefix, view, strings.Join(toks(alt.set, "v"), " "))))
+	}
+	g.run("f:no-set/empty", fmt.Sprintf("%s %d", prefix, view))
+}
+
+// xpoaCandidate presents the candidate of height h on the ledger 0..tip with the rollback markers ownBits / preBits.
+// light: only the quorum classes (used by the systematic marker pass).
+func (g *gen) xpoaCandidate(start int64, init []int, hist []edit, tip, h, ownBits, preBits int64, light bool) {
+	own, ok := xpInForce(start, tip, init, hist, h, ownBits)
+	S, ok2 := xpInForce(start, tip, init, hist, h-1, preBits)
+	if h-1 < start {
+		S, ok2 = xpInForce(start, tip, init, hist, h-1, 0) // blocks below StartHeight carry no marker
+	}
+	if !ok {
+		// the block's own marker points beyond the ledger: no proposer can be computed, whatever the certificate
+		if ok2 {
+			pos := int64(g.rng.Intn(len(init)))
+			prefix := fmt.Sprintf("xp %d %s %s %d %d %d %d %d", start, setStr(init), histStr(hist), tip, h, ownBits, preBits, pos)
+			g.run("g:own-marker-out-of-range", strings.TrimSpace(fmt.Sprintf("%s %d %s", prefix, h-1, strings.Join(toks(S, "v"), " "))))
+		}
+		return
+	}
+	pos := int64(g.rng.Intn(len(own)))
+	prefix := fmt.Sprintf("xp %d %s %s %d %d %d %d %d", start, setStr(init), histStr(hist), tip, h, ownBits, preBits, pos)
+	if !ok2 {
+		if h > start {
+			c := &cand{kind: "xp", start: start, init: init, hist: hist, tip: tip, h: h, ownBits: ownBits, preB: preBits, view: h - 1, cert: h - 1}
+			g.noSetCertificates(prefix, h-1, own[pos], c.altSets(own))
+		}
+		return
+	}
+	O := own
+	if sameSet(O, S) {
+		if s, k := recordedAt(hist, tip); k && !sameSet(s, S) {
+			O = s
+		} else if !sameSet(init, S) {
+			O = init
+		} else if len(hist) > 0 {
+			O = hist[len(hist)-1].set
+		}
+	}
+	if light {
+		col := own[pos]
+		sb := g.shuffled(but(S, col))
+		g.run("m:marker/exact-quorum", strings.TrimSpace(fmt.Sprintf("%s %d %s", prefix, h-1, strings.Join(toks(take(sb, quorum(len(S))), "v"), " "))))
+		for _, alt := range []namedSet{{"other", O}, {"initial", init}} {
+			if sameSet(alt.set, S) {
+				continue
+			}
+			ob := g.shuffled(but(alt.set, col))
+			g.run("m:marker/"+alt.name+"-set-quorum", strings.TrimSpace(fmt.Sprintf("%s %d %s", prefix, h-1, strings.Join(toks(take(ob, quorum(len(alt.set))), "v"), " "))))
+		}
+		return
+	}
+	g.certificates(prefix, h-1, S, O, own[pos])
+	if h > start {
+		g.mislabelled(prefix, h, tip, own[pos], func(v int64) ([]int, bool) {
+			b := int64(0)
+			if v == h-1 || v > h-1 {
+				b = preBits
+			}
+			return xpInForce(start, tip, init, hist, v, b)
+		})
+	}
+}
+
+// markerChoices: rollback markers for the storage of block b on a ledger with the given tip: the heights a miner that
+// rolled back may have recorded (around b), the last marker whose snapshot block the ledger still holds (tip+3), the first
+// one it does not (tip+4), one far beyond the ledger, and markers at or below StartHeight+2 (the initial set by the start rule)
+func markerChoices(start, tip, b int64) []int64 {
+	r := []int64{b, b + 1, b + 2, tip + 3, tip + 4, 1000 + b, 1, start + 2, start + 3}
+	if b >= 2 {
+		r = append(r, b-1)
+	}
+	return r
+}
+
 func (g *gen) xpoaAround(start int64, init []int, hist []edit, tips []int64, bitsToo bool) {
 	for _, tip := range tips {
 		if tip+1 < start {
@@ -1050,40 +1164,31 @@ func (g *gen) xpoaAround(start int64, init []int, hist []edit, tips []int64, bit
 			var ownBits, preBits int64
 			if bitsToo {
 				if g.rng.Chance(1, 2) {
-					preBits = h - 1 + int64(g.rng.Intn(3))
+					m := markerChoices(start, tip, h-1)
+					preBits = m[g.rng.Intn(len(m))]
 				}
 				if g.rng.Chance(1, 3) {
-					ownBits = h + int64(g.rng.Intn(2))
+					m := markerChoices(start, tip, h)
+					ownBits = m[g.rng.Intn(len(m))]
 				}
 			}
-			own, ok := xpInForce(start, tip, init, hist, h, ownBits)
-			S, ok2 := xpInForce(start, tip, init, hist, h-1, preBits)
-			if !ok || !ok2 {
-				continue
-			}
-			pos := int64(g.rng.Intn(len(own)))
-			O := own
-			if sameSet(O, S) {
-				if s, k := recordedAt(hist, tip); k && !sameSet(s, S) {
-					O = s
-				} else if !sameSet(init, S) {
-					O = init
-				} else if len(hist) > 0 {
-					O = hist[len(hist)-1].set
-				}
-			}
-			prefix := fmt.Sprintf("xp %d %s %s %d %d %d %d %d", start, setStr(init), histStr(hist), tip, h, ownBits, preBits, pos)
-			g.certificates(prefix, h-1, S, O, own[pos])
-			if h > start {
-				g.mislabelled(prefix, h, tip, own[pos], func(v int64) ([]int, bool) {
-					b := int64(0)
-					if v == h-1 || v > h-1 {
-						b = preBits
-					}
-					return xpInForce(start, tip, init, hist, v, b)
-				})
-			}
+			g.xpoaCandidate(start, init, hist, tip, h, ownBits, preBits, false)
 		}
+	}
+}
+
+// xpoaMarkers: for every tip, the candidate at tip+1 whose PREDECESSOR carries each of the marker choices (the certified
+// view's set is the one the marker selects, or none), and the candidate whose OWN marker cannot be resolved.
+func (g *gen) xpoaMarkers(start int64, init []int, hist []edit, tips []int64) {
+	for _, tip := range tips {
+		if tip+1 <= start {
+			continue
+		}
+		h := tip + 1
+		for _, m := range markerChoices(start, tip, h-1) {
+			g.xpoaCandidate(start, init, hist, tip, h, 0, m, true)
+		}
+		g.xpoaCandidate(start, init, hist, tip, h, tip+4+int64(g.rng.Intn(3)), 0, true)
 	}
 }
 
@@ -1240,6 +1345,7 @@ func main() {
 		for _, name := range names {
 			for _, E := range editAt {
 				g.xpoaAround(1, seq(0, n), []edit{{E, vs[name]}}, span(maxi(E-2, 0), E+6), false)
+				g.xpoaMarkers(1, seq(0, n), []edit{{E, vs[name]}}, span(maxi(E-1, 1), E+6))
 			}
 		}
 	}
@@ -1320,7 +1426,7 @@ func main() {
 		g.tdposAround(start, seq(0, n), hist, []int64{F, F2}, span(maxi(F-2, start-1), F2+3))
 	}
 	out.Stats.Exhaustive = false
-	out.Stats.Rule = fmt.Sprintf("chains with validator-set edits (7 variants of the new set: disjoint, shifted, grown, shrunk, one swapped, rotated, bigger) for n in %v; for every tip height from 2 blocks before the edit to 6 after it (tdpos: around the first block of the next two terms, edits 2..5 blocks before it) the candidate at tip+1 (1/3: also a competing block at tip or tip-1) is presented to the real CheckMinerMatch with 15 classes of justify certificate built from the set in force for the certified view and the other set in play; plus %d+%d randomised chains (two edits, later StartHeight, rollback markers) and the StartHeight exemption; every op line is a case", sizes, rounds, tdRounds)
+	out.Stats.Rule = fmt.Sprintf("chains with validator-set edits (7 variants of the new set: disjoint, shifted, grown, shrunk, one swapped, rotated, bigger) for n in %v; for every tip height from 2 blocks before the edit to 6 after it (tdpos: around the first block of the next two terms, edits 2..5 blocks before it) the candidate at tip+1 (1/3: also a competing block at tip or tip-1) is presented to the real CheckMinerMatch with 15 classes of justify certificate built from the set in force for the certified view and the other set in play; for every such tip also the candidate whose predecessor carries each of 10 rollback markers (around its height, earlier, tip+3 = the last the ledger resolves, tip+4 and far beyond = no set in force, at / below StartHeight+2 = initial set) with a quorum of the marker's set, of the other set in play and of the initial set, or, when the marker cannot be resolved, with a quorum / all members of every set a lookup could fall back to (initial, tip state, without the marker, the block's own, recorded), and the candidate whose own marker cannot be resolved (proposer = the slot's member of the initial set); plus %d+%d randomised chains (two edits, later StartHeight, the same marker choices on both blocks) and the StartHeight exemption; every op line is a case", sizes, rounds, tdRounds)
 }
 
 func maxi(a, b int64) int64 {
